@@ -223,6 +223,29 @@ func genC06(t *rapid.T) c06Case {
 		}
 		c.Kinds = append(c.Kinds, "cascade-burst-in-deleting-tx")
 	}
+	if rapid.IntRange(0, 2).Draw(t, "linkInDeletingTx") == 0 {
+		// a link created in the very transaction that deletes the entity must disappear with it
+		if c.VictimStore == "things" && len(m.Ents["targets"]) > 0 {
+			tid := c06IDs["targets"][0]
+			for _, id := range c06IDs["targets"] {
+				if _, ok := m.Ents["targets"][id]; ok {
+					tid = id
+				}
+			}
+			if _, ok := m.Ents["targets"][tid]; ok {
+				delTx.Ops = append(delTx.Ops, kit.Op{Kind: "addlinks", Store: "things", Field: "tlinks", ID: c.Victim, Keys: []string{tid}})
+				c.Kinds = append(c.Kinds, "link-added-in-deleting-tx")
+			}
+		} else if c.VictimStore == "targets" && len(m.Ents["things"]) > 0 {
+			for _, id := range c06IDs["things"] {
+				if _, ok := m.Ents["things"][id]; ok {
+					delTx.Ops = append(delTx.Ops, kit.Op{Kind: "addlinks", Store: "targets", Field: "plinks", ID: c.Victim, Keys: []string{id}})
+					c.Kinds = append(c.Kinds, "link-added-in-deleting-tx")
+					break
+				}
+			}
+		}
+	}
 	delTx.Ops = append(delTx.Ops, kit.Op{Kind: "delete", Store: via, ID: c.Victim})
 	c.H.Txs = append(c.H.Txs, delTx)
 	// re-create the same id with fresh values
